@@ -4,7 +4,7 @@ import FqModel.Reasm
 /-! driver for C19 — TCP streams and IPv4 datagrams are reassembled exactly
 
   case line (written by harness/cmd/c19, grammar in kase.go / main.go there):
-    cap <fmt> <links> (C <ipA> <portA> <ipB> <portB> <isnA> <isnB> <dataA> <dataB>)+ P (<pkt> | N | N=<links>)* [@note]*
+    cap <fmt> <links> [t=<timestamps>] (C <ipA> <portA> <ipB> <portB> <isnA> <isnB> <dataA> <dataB>)+ P (<pkt> | N | N=<links>)* [@note]*
         TAB  fq <format> B=<facts> (S (K <6 client fields> <6 server fields>)* (R <datagram>)*)* T=<same|diff…> X (<call>* flush)(N <call>* flush)*
     linktable TAB <linktype>=<method>…      (the dispatch table of format/pcap/shared.go, dumped from the binary)
 
@@ -185,10 +185,23 @@ def knownFormats : List String :=
   ["pcap_le", "pcap_be", "pcap_le_ns", "pcap_be_ns", "pcapng_le", "pcapng_be", "pcapng_le_len", "pcapng_be_len",
    "pcapng_le_len_big", "pcapng_be_len_big"]
 
+def timeModes : List String := ["dense", "const", "zero", "minutes", "hours", "days", "back", "wrap", "jumps"]
+
 def parseCase (op : String) : Option Case :=
   match (words op).filter (fun w => !w.startsWith "@") with
   | "cap" :: fmt :: links :: rest => do
     if !knownFormats.contains fmt then none
+    -- capture timestamps (`t=<mode>[/<resolution>]`): the reference does not depend on them
+    -- (Props.C19.reassembly_time_independent); only the spelling is checked
+    let rest ← match rest with
+      | w :: more =>
+        if w.startsWith "t=" then
+          match (w.drop 2).toString.splitOn "/" with
+          | [m] => if timeModes.contains m then some more else none
+          | [m, r] => if timeModes.contains m && ["us", "ns", "ms", "b10", "s"].contains r then some more else none
+          | _ => none
+        else some rest
+      | [] => some rest
     let links ← parseLinks links
     let (conns, ps) ← parseConns rest #[]
     -- split the packet words into sections at `N` / `N=<links>`
